@@ -113,7 +113,7 @@ def compile_batch(tag, fns):
     shutil.copy("/repo/Cargo.lock", os.path.join(d, "Cargo.lock"))
     open(os.path.join(d, "Cargo.toml"), "w").write(
         '[package]\nname = "progs"\nversion = "0.1.0"\nedition = "2021"\n[workspace]\n[dependencies]\nprefix-trie = { path = "/repo", default-features = false }\n')
-    open(os.path.join(d, ".cargo", "config.toml"), "w").write('[net]\noffline = true\n[build]\ntarget-dir = "/verif/work/progs_target"\n')
+    open(os.path.join(d, ".cargo", "config.toml"), "w").write('[net]\noffline = true\n[build]\ntarget-dir = "%s"\n' % os.path.join(vlib.WORK, "progs_target"))
     src = [HEADER, "fn assert_send<T: Send>() {}", "fn assert_sync<T: Sync>() {}"]
     spans = []
     line = sum(s.count("\n") + 1 for s in src) - HEADER.count("\n") + HEADER.count("\n")
